@@ -13,12 +13,28 @@
 // panics on them: the mirror's panic sites are compared too).
 // A line that does not parse gives `PARSE error|panic`, a panic of the desugarer
 // `SUGAR panic`.
+// Third audit.  (1) `(err KIND <report>)`: on an error the REPORT the error turns into
+// (`CFGError::into_report`: code, message with the NAME, primary label = location and file) is
+// printed, not only the kind, so that name and location of the CFG error reports are compared.
+// (2) In the modes `desugared` and `raw` every definition carries a third pair of fields
+//   WF (wf <nest> # <blocks after into_cfg> # <blocks after into_ssa | skipped | error | panic> # <api>)
+// for property C12 (lib/props/C12.py files failures of its clauses on these definitions WITH the
+// source as failing input): <blocks> in the form of harness/src/bin/lift.rs (`B0 d0 [L3_9 C12_40>1/2 P] p[] s[1]`,
+// an item named by start_end of its statement meta, P a phi statement), <nest> the statements and
+// conditions of the DESUGARED body in source order with their syntactic loop nesting (`3_9:0 12_40:0 ..`,
+// computed here from the syntax tree by a plain recursion: the oracle side), <api> the accessors
+// `len / entry_block / get_basic_block / in_loop` against the block iterator (`ok` or mismatches).
 // Mode `chain` (property C01): as `desugared`, but RES is the OUTCOME CLASS of the
 // rest of the real per-definition pipeline, `into_cfg` followed by `into_ssa` (which
 // includes type / value / degree propagation and the caching of variable uses):
 //   RES (chain ok) | (chain err-lift KIND) | (chain panic-lift) | (chain err-ssa) | (chain panic-ssa)
 // compared with what the extracted chain Model.PipelineMirrors.analyse_body answers
 // for the same DEF (coq/extract/chain.ml).
+// Third audit (C01): `chain [CURVE [VALUE_PASSES DEGREE_PASSES]]` - the curve handed to `into_cfg`
+// (BN254 | BLS12_381 | GOLDILOCKS, default BN254) and the pass budgets of value / degree propagation
+// (`-` = the real time box only); in mode `chain` the lines are processed on a thread with a 4 GB
+// stack, so that sources nested up to the depth at which the COMMAND-LINE tool is known to exhaust its
+// 8 MB stack (known finding C01-stack-depth) can be fed in-process.
 use parser::verif::{parse_source, remove_syntactic_sugar};
 use program_structure::ast::Definition;
 use program_structure::cfg::errors::CFGError;
@@ -76,17 +92,25 @@ fn report_line(r: &Report) -> String {
     o
 }
 
+fn error_kind(e: &CFGError) -> &'static str {
+    match e {
+        CFGError::UndefinedVariableError { .. } => "undefined-variable",
+        CFGError::InvalidVariableNameError { .. } => "invalid-name",
+        CFGError::ShadowingVariableWarning { .. } => "shadowing",
+        CFGError::ParameterNameCollisionError { .. } => "param-collision",
+    }
+}
+
 fn result_line(r: Option<(Result<Cfg, CFGError>, ReportCollection)>) -> String {
     match r {
         None => "(panic)".to_string(),
         Some((Err(e), _)) => {
-            let k = match e {
-                CFGError::UndefinedVariableError { .. } => "undefined-variable",
-                CFGError::InvalidVariableNameError { .. } => "invalid-name",
-                CFGError::ShadowingVariableWarning { .. } => "shadowing",
-                CFGError::ParameterNameCollisionError { .. } => "param-collision",
-            };
-            format!("(err {})", k)
+            let k = error_kind(&e);
+            // the report the CLI displays for this error: code, message (with the name), labels (location, file)
+            match guarded(move || report_line(&e.into_report())) {
+                Some(rep) => format!("(err {} {})", k, rep),
+                None => format!("(err {} (into_report-panics))", k),
+            }
         }
         Some((Ok(cfg), reports)) => {
             let reps: Vec<String> = reports.iter().map(report_line).collect();
@@ -99,10 +123,7 @@ fn result_line(r: Option<(Result<Cfg, CFGError>, ReportCollection)>) -> String {
 fn chain_line(r: Option<(Result<Cfg, CFGError>, ReportCollection)>) -> String {
     match r {
         None => "(chain panic-lift)".to_string(),
-        Some((Err(_), _)) => {
-            let e = result_line(r);
-            format!("(chain err-lift {})", e.trim_start_matches("(err ").trim_end_matches(')'))
-        }
+        Some((Err(e), _)) => format!("(chain err-lift {})", error_kind(&e)),
         Some((Ok(cfg), _)) => match guarded(move || cfg.into_ssa().is_ok()) {
             None => "(chain panic-ssa)".to_string(),
             Some(false) => "(chain err-ssa)".to_string(),
@@ -111,7 +132,137 @@ fn chain_line(r: Option<(Result<Cfg, CFGError>, ReportCollection)>) -> String {
     }
 }
 
+// ---- C12 on the definitions of this engine (third audit) ----
+
+fn span_id(m: &program_structure::ir::Meta) -> String {
+    let l = m.file_location();
+    format!("{}_{}", l.start, l.end)
+}
+
+fn shape(cfg: &Cfg) -> String {
+    use program_structure::ir::{Expression, Statement};
+    cfg.iter()
+        .map(|b| {
+            let items: Vec<String> = b
+                .iter()
+                .map(|s| match s {
+                    Statement::IfThenElse { true_index, false_index, .. } => match false_index {
+                        Some(f) => format!("C{}>{}/{}", span_id(s.meta()), true_index, f),
+                        None => format!("C{}>{}/-", span_id(s.meta()), true_index),
+                    },
+                    Statement::Substitution { rhe: Expression::Phi { .. }, .. } => "P".to_string(),
+                    _ => format!("L{}", span_id(s.meta())),
+                })
+                .collect();
+            let mut preds: Vec<usize> = b.predecessors().iter().cloned().collect();
+            let mut succs: Vec<usize> = b.successors().iter().cloned().collect();
+            preds.sort_unstable();
+            succs.sort_unstable();
+            let l = |v: &[usize]| v.iter().map(|x| x.to_string()).collect::<Vec<_>>().join(",");
+            format!("B{} d{} [{}] p[{}] s[{}]", b.index(), b.loop_depth(), items.join(" "), l(&preds), l(&succs))
+        })
+        .collect::<Vec<_>>()
+        .join("; ")
+}
+
+/// statements and conditions of the body in source order with their syntactic loop nesting (a loop
+/// condition counts outside its loop); blocks and initialisation blocks have no item of their own
+fn nest(s: &program_structure::ast::Statement, d: usize, out: &mut Vec<String>) {
+    use program_structure::ast::Statement::*;
+    let id = |m: &program_structure::ast::Meta| format!("{}_{}", m.location.start, m.location.end);
+    match s {
+        While { meta, stmt, .. } => {
+            out.push(format!("{}:{}", id(meta), d));
+            nest(stmt, d + 1, out);
+        }
+        IfThenElse { meta, if_case, else_case, .. } => {
+            out.push(format!("{}:{}", id(meta), d));
+            nest(if_case, d, out);
+            if let Some(e) = else_case {
+                nest(e, d, out);
+            }
+        }
+        Block { stmts, .. } => stmts.iter().for_each(|x| nest(x, d, out)),
+        InitializationBlock { initializations, .. } => initializations.iter().for_each(|x| nest(x, d, out)),
+        other => out.push(format!("{}:{}", id(other.get_meta()), d)),
+    }
+}
+
+/// the accessors nothing else reads, against the block iterator (as in harness/src/bin/lift.rs)
+fn api_check(cfg: &Cfg) -> String {
+    let mut bad: Vec<String> = Vec::new();
+    let n = cfg.iter().count();
+    if cfg.len() != n {
+        bad.push(format!("len()={}/iter={}", cfg.len(), n));
+    }
+    if cfg.is_empty() != (n == 0) {
+        bad.push(format!("is_empty()={}", cfg.is_empty()));
+    }
+    match guarded(|| cfg.entry_block().index()) {
+        Some(0) => {}
+        Some(i) => bad.push(format!("entry_block().index()={i}")),
+        None => bad.push("entry_block()-panics".to_string()),
+    }
+    for (pos, b) in cfg.iter().enumerate() {
+        match cfg.get_basic_block(pos) {
+            Some(x) if x.index() == b.index() && x.statements().len() == b.statements().len() => {}
+            Some(x) => bad.push(format!("get_basic_block({pos}).index()={}", x.index())),
+            None => bad.push(format!("get_basic_block({pos})=None")),
+        }
+        if b.in_loop() != (b.loop_depth() > 0) {
+            bad.push(format!("B{pos}.in_loop()={}/depth={}", b.in_loop(), b.loop_depth()));
+        }
+        if b.len() != b.iter().count() || b.is_empty() != (b.iter().count() == 0) {
+            bad.push(format!("B{pos}.len()={}/iter={}", b.len(), b.iter().count()));
+        }
+    }
+    if cfg.get_basic_block(n).is_some() {
+        bad.push(format!("get_basic_block({n})=Some"));
+    }
+    if bad.is_empty() {
+        "ok".to_string()
+    } else {
+        bad.join(",")
+    }
+}
+
+/// the WF field of one definition: the real `into_cfg` again (it is a function of the definition), then `into_ssa`
+fn wf_field(body: &program_structure::ast::Statement, lift: impl FnOnce() -> Option<Cfg>) -> String {
+    let mut n = Vec::new();
+    nest(body, 0, &mut n);
+    match guarded(lift) {
+        None => format!("(wf {} # panic # - # -)", n.join(" ")),
+        Some(None) => format!("(wf {} # error # - # -)", n.join(" ")),
+        Some(Some(cfg)) => {
+            let before = shape(&cfg);
+            let mut api = api_check(&cfg);
+            // fail-safe: into_ssa is skipped on bodies with more than 400 statements and conditions (printed as
+            // `skipped` and counted by lib/props/liftfull_engine.py; none in a quick run)
+            let after = if n.len() > 400 {
+                "skipped".to_string()
+            } else {
+                match guarded(move || cfg.into_ssa()) {
+                    None => "panic".to_string(),
+                    Some(Err(_)) => "error".to_string(),
+                    Some(Ok(ssa)) => {
+                        let a2 = api_check(&ssa);
+                        if a2 != "ok" {
+                            api = if api == "ok" { format!("ssa:{a2}") } else { format!("{api},ssa:{a2}") };
+                        }
+                        shape(&ssa)
+                    }
+                }
+            };
+            format!("(wf {} # {} # {} # {})", n.join(" "), before, after, api)
+        }
+    }
+}
+
 fn run(line: &str, raw: bool, chain: bool) -> String {
+    run_with(line, raw, chain, &Curve::default())
+}
+
+fn run_with(line: &str, raw: bool, chain: bool, curve: &Curve) -> String {
     let src = unescape(line);
     let mut file_library = FileLibrary::new();
     let file_id = file_library.add_file("memory.circom".to_string(), src.clone(), true);
@@ -161,11 +312,18 @@ fn run(line: &str, raw: bool, chain: bool) -> String {
         out.push(def_line(kind, n, t.get_name_of_params(), t.get_file_id(), &t.get_param_location(), t.get_body()));
         let r = guarded(|| {
             let mut rs = ReportCollection::new();
-            let c = t.into_cfg(&Curve::default(), &mut rs);
+            let c = t.into_cfg(curve, &mut rs);
             (c, rs)
         });
         out.push("RES".to_string());
         out.push(if chain { chain_line(r) } else { result_line(r) });
+        if !chain {
+            out.push("WF".to_string());
+            out.push(wf_field(t.get_body(), || {
+                let mut rs = ReportCollection::new();
+                t.into_cfg(curve, &mut rs).ok()
+            }));
+        }
     }
     for n in fnames {
         let f = &functions[n];
@@ -173,11 +331,18 @@ fn run(line: &str, raw: bool, chain: bool) -> String {
         out.push(def_line("function", n, f.get_name_of_params(), f.get_file_id(), &f.get_param_location(), f.get_body()));
         let r = guarded(|| {
             let mut rs = ReportCollection::new();
-            let c = f.into_cfg(&Curve::default(), &mut rs);
+            let c = f.into_cfg(curve, &mut rs);
             (c, rs)
         });
         out.push("RES".to_string());
         out.push(if chain { chain_line(r) } else { result_line(r) });
+        if !chain {
+            out.push("WF".to_string());
+            out.push(wf_field(f.get_body(), || {
+                let mut rs = ReportCollection::new();
+                f.into_cfg(curve, &mut rs).ok()
+            }));
+        }
     }
     if out.is_empty() {
         return "EMPTY".to_string();
@@ -189,5 +354,25 @@ fn main() {
     silence_panics();
     let raw = std::env::args().nth(1).map(|a| a == "raw").unwrap_or(false);
     let chain = std::env::args().nth(1).map(|a| a == "chain").unwrap_or(false);
+    if chain {
+        use program_structure::control_flow_graph::verif::{set_degree_pass_budget, set_value_pass_budget};
+        use std::str::FromStr;
+        let curve = match std::env::args().nth(2) {
+            Some(c) => Curve::from_str(&c).expect("chain: unknown curve"),
+            None => Curve::default(),
+        };
+        if let Some(Ok(n)) = std::env::args().nth(3).map(|a| a.parse::<usize>()) {
+            set_value_pass_budget(n);
+        }
+        if let Some(Ok(n)) = std::env::args().nth(4).map(|a| a.parse::<usize>()) {
+            set_degree_pass_budget(n);
+        }
+        let t = std::thread::Builder::new()
+            .stack_size(4usize << 30)
+            .spawn(move || each_line(|l| run_with(l, false, true, &curve)))
+            .expect("chain: cannot start the worker thread");
+        t.join().expect("chain: worker thread died");
+        return;
+    }
     each_line(|l| run(l, raw, chain));
 }
